@@ -46,7 +46,7 @@ Section Layout.
   Hypothesis Hv_sep : is_nil v || negb (is_nil p2) = true.
   Hypothesis Hd_strip : stripped d = true.
   Hypothesis Hd_nl : in_str 10 d = false.
-  Hypothesis HU : unit_word U.
+  Hypothesis HU : unit_splits U (p2 ++ v ++ p3) (p4 ++ d ++ p5).
 
   Let Nm := p0 ++ mn ++ p1.
   Let W := p2 ++ v ++ p3.
@@ -108,7 +108,7 @@ Section Layout.
   Qed.
 
   Lemma rhl_layout (ic ip : bool) :
-    (ic = true -> contains [46; 46] (layout p0 mn p1 U p2 v p3 p4 d p5) = false) ->
+    (ic = true -> curves_plain (layout p0 mn p1 U p2 v p3 p4 d p5) = true) ->
     (if ip return Prop
      then clock_colons v = true /\
           ((p3 <> [] /\ p4 <> []) \/ (in_str 58 U = false /\ in_str 58 d = false))
@@ -117,7 +117,7 @@ Section Layout.
   Proof.
     intros Hdd Hsec. unfold layout in Hdd |- *. rewrite layout_assoc in Hdd |- *.
     fold Nm W D in Hdd |- *.
-    rewrite (rhl_generic Nm U W D ic ip lay_N_ne lay_N_dot lay_N_colon (HU W D lay_W_head)
+    rewrite (rhl_generic Nm U W D ic ip lay_N_ne lay_N_dot lay_N_colon HU
                lay_W_any lay_D_any Hdd).
     - unfold Nm, W, D. rewrite !strip_pad by assumption. reflexivity.
     - destruct ip.
@@ -137,8 +137,8 @@ Lemma rhl_missing_period p0 nm p1 p4 v p5 ic ip :
   blanks p0 = true -> blanks p1 = true -> blanks p4 = true -> blanks p5 = true ->
   in_str 46 nm = false -> in_str 58 nm = false -> stripped nm = true ->
   stripped v = true -> in_str 10 v = false ->
-  (ic = true -> contains [46; 46] (p0 ++ nm ++ p1 ++ [58] ++ p4 ++ v ++ p5) = false) ->
-  read_header_line (p0 ++ nm ++ p1 ++ [58] ++ p4 ++ v ++ p5) ic ip = Some (mkhl nm [] v []).
+  (ic = true -> curves_plain (layout_np p0 nm p1 p4 v p5) = true) ->
+  read_header_line (layout_np p0 nm p1 p4 v p5) ic ip = Some (mkhl nm [] v []).
 Proof.
   intros Hp0 Hp1 Hp4 Hp5 Hdot Hcol Hns Hvs Hvn Hdd. unfold layout_np in Hdd |- *. rewrite layout_mp_assoc in Hdd |- *.
   assert (HNc : in_str 58 (p0 ++ nm ++ p1) = false).
@@ -155,7 +155,7 @@ Proof.
     rewrite Hfm. cbn [caps group_opt Nat.eqb]. rewrite !strip_pad by assumption. reflexivity.
   - apply in_str_mid.
   - rewrite (before_first _ _ HNc). exact HNd.
-  - intros Hic. apply no_dd_re_search. apply Hdd. exact Hic.
+  - exact Hdd.
 Qed.
 
 (* ---------- the statements of Props/C04.v -------------------------------------------- *)
@@ -174,14 +174,14 @@ Ltac split_bools :=
 (* the section-dependent side conditions as a proposition *)
 Lemma sect_ok_prop ic ip line U v p3 p4 d :
   sect_ok ic ip line U v p3 p4 d = true ->
-  (ic = true -> contains [46; 46] line = false) /\
+  (ic = true -> curves_plain line = true) /\
   (if ip return Prop
    then clock_colons v = true /\
         ((p3 <> [] /\ p4 <> []) \/ (in_str 58 U = false /\ in_str 58 d = false))
    else in_str 58 d = false).
 Proof.
-  unfold sect_ok, no_double_dot. intros H. apply andb_true_iff in H as [H1 H2]. split.
-  - intros ->. cbn [negb orb] in H1. apply negb_true_iff in H1. exact H1.
+  unfold sect_ok. intros H. apply andb_true_iff in H as [H1 H2]. split.
+  - intros ->. cbn [negb orb] in H1. exact H1.
   - destruct ip.
     + apply andb_true_iff in H2 as [Hcc H2]. split; [exact Hcc|].
       apply orb_true_iff in H2 as [H2|H2]; apply andb_true_iff in H2 as [Ha Hb].
@@ -202,7 +202,7 @@ Proof.
   unfold padding6, conf_mnem, conf_unit, conf_text, value_set_off in *. split_bools.
   rewrite (rhl_layout p0 mn p1 u p2 v p3 p4 d p5); try assumption.
   - rewrite fix_unit_id; [reflexivity|apply no_space_stripped; assumption|assumption].
-  - apply unit_word_plain; assumption.
+  - apply unit_word_plain; try assumption. apply head_space_value; assumption.
 Qed.
 
 Theorem numeric_unit_all :
@@ -221,7 +221,7 @@ Proof.
   rewrite (rhl_layout p0 mn p1 (ds ++ [sp] ++ w) p2 v p3 p4 d p5); try assumption.
   - rewrite fix_unit_id; [reflexivity|apply stripped_num; assumption|].
     rewrite app_assoc. rewrite endswith_app_ne by assumption. assumption.
-  - apply unit_word_num; try assumption. apply blank_space. assumption.
+  - apply unit_word_num; try assumption; [apply blank_space; assumption|apply head_space_value; assumption].
 Qed.
 
 (* the named special cases *)
@@ -245,19 +245,18 @@ Theorem curves_parse : forall p0 mn p1 u p2 v p3 p4 d p5 : list N,
   read_header_line (layout p0 mn p1 u p2 v p3 p4 d p5) true false = Some (mkhl mn u v d).
 Proof.
   intros p0 mn p1 u p2 v p3 p4 d p5 Hp Hm Hu Hv Hd Hso Hdc Hdd.
-  apply parse_all; try assumption. unfold sect_ok. rewrite Hdc, Hdd. reflexivity.
+  apply parse_all; try assumption. unfold sect_ok. rewrite Hdc, (no_double_dot_plain _ Hdd). reflexivity.
 Qed.
 
 Theorem missing_period : forall (p0 nm p1 p4 v p5 : list N) (is_curves is_param : bool),
   blanks p0 && blanks p1 && blanks p4 && blanks p5 = true ->
   conf_name_np nm = true -> conf_text v = true ->
-  (is_curves = true -> no_double_dot (layout_np p0 nm p1 p4 v p5) = true) ->
+  (is_curves = true -> curves_plain (layout_np p0 nm p1 p4 v p5) = true) ->
   read_header_line (layout_np p0 nm p1 p4 v p5) is_curves is_param = Some (mkhl nm [] v []).
 Proof.
   intros p0 nm p1 p4 v p5 ic ip Hp Hn Hv Hdd.
   unfold conf_name_np, conf_text in *. split_bools.
-  apply rhl_missing_period; try assumption.
-  intros Hic. specialize (Hdd Hic). unfold no_double_dot in Hdd. apply negb_true_iff in Hdd. exact Hdd.
+  apply rhl_missing_period; assumption.
 Qed.
 
 Theorem param_time : forall (p0 mn p1 u p2 v p3 p4 d p5 : list N) (is_curves : bool),
@@ -266,7 +265,7 @@ Theorem param_time : forall (p0 mn p1 u p2 v p3 p4 d p5 : list N) (is_curves : b
   value_set_off p2 v = true ->
   clock_colons v = true ->
   negb (is_nil p3) && negb (is_nil p4) = true ->
-  (is_curves = true -> no_double_dot (layout p0 mn p1 u p2 v p3 p4 d p5) = true) ->
+  (is_curves = true -> curves_plain (layout p0 mn p1 u p2 v p3 p4 d p5) = true) ->
   read_header_line (layout p0 mn p1 u p2 v p3 p4 d p5) is_curves true = Some (mkhl mn u v d).
 Proof.
   intros p0 mn p1 u p2 v p3 p4 d p5 ic Hp Hm Hu Hv Hd Hso Hcc Hne Hdd.
@@ -279,12 +278,102 @@ Theorem param_parse : forall (p0 mn p1 u p2 v p3 p4 d p5 : list N) (is_curves : 
   conf_mnem mn = true -> conf_unit u = true -> conf_text v = true -> conf_text d = true ->
   value_set_off p2 v = true ->
   clock_colons v = true -> in_str 58 u = false -> in_str 58 d = false ->
-  (is_curves = true -> no_double_dot (layout p0 mn p1 u p2 v p3 p4 d p5) = true) ->
+  (is_curves = true -> curves_plain (layout p0 mn p1 u p2 v p3 p4 d p5) = true) ->
   read_header_line (layout p0 mn p1 u p2 v p3 p4 d p5) is_curves true = Some (mkhl mn u v d).
 Proof.
   intros p0 mn p1 u p2 v p3 p4 d p5 ic Hp Hm Hu Hv Hd Hso Hcc Huc Hdc Hdd.
   apply parse_all; try assumption. unfold sect_ok. rewrite Hcc, Huc, Hdc. cbn [negb andb orb].
   rewrite orb_true_r, andb_true_r. destruct ic; [|reflexivity]. rewrite (Hdd eq_refl). reflexivity.
+Qed.
+
+(* ---------- units made of digits only ------------------------------------------------ *)
+Lemma all_digit_no_space u : all_digit u = true -> no_space u = true.
+Proof.
+  induction u as [|c u IH]; [reflexivity|]. cbn [all_digit no_space forallb]. intros H.
+  apply andb_true_iff in H as [Hc H]. rewrite (digit_not_space c Hc). cbn [negb andb]. apply IH. exact H.
+Qed.
+
+Lemma all_digit_no_colon u : all_digit u = true -> in_str 58 u = false.
+Proof.
+  induction u as [|c u IH]; [reflexivity|]. cbn [all_digit forallb]. intros H.
+  apply andb_true_iff in H as [Hc H]. rewrite in_str_cons, (IH H).
+  unfold is_digit in Hc. assert (E : (58 =? c) = false) by lia. rewrite E. reflexivity.
+Qed.
+
+Lemma all_digit_no_dot_end u : all_digit u = true -> endswith [46] u = false.
+Proof.
+  intros H. unfold endswith. cbn [rev app].
+  assert (Hr : forallb is_digit (rev u) = true) by (rewrite forallb_rev; exact H).
+  destruct (rev u) as [|x r]; [reflexivity|]. cbn [startswith]. cbn [forallb] in Hr.
+  apply andb_true_iff in Hr as [Hx _]. unfold is_digit in Hx.
+  assert (E : (46 =? x) = false) by lia. rewrite E. reflexivity.
+Qed.
+
+Lemma fix_unit_digit_sp u sp : all_digit u = true -> is_blank sp = true -> fix_unit (u ++ [sp]) = u.
+Proof.
+  intros Hu Hsp. unfold fix_unit.
+  assert (E : strip (u ++ [sp]) = u).
+  { change (u ++ [sp]) with ([] ++ u ++ [sp]). apply strip_pad; [reflexivity| |].
+    - cbn [blanks forallb]. rewrite Hsp. reflexivity.
+    - apply no_space_stripped. apply all_digit_no_space. exact Hu. }
+  rewrite E. change (endswith [ch_dot] u) with (endswith [46] u).
+  rewrite (all_digit_no_dot_end u Hu). reflexivity.
+Qed.
+
+Lemma layout_shift_p2 (p0 mn p1 u : list N) sp (p2 v p3 p4 d p5 : list N) :
+  layout p0 mn p1 u (sp :: p2) v p3 p4 d p5 = layout p0 mn p1 (u ++ [sp]) p2 v p3 p4 d p5.
+Proof. unfold layout. cbn [app]. rewrite <- app_assoc. reflexivity. Qed.
+
+Lemma layout_shift_p3 (p0 mn p1 u : list N) sp (p3 p4 d p5 : list N) :
+  layout p0 mn p1 u [] [] (sp :: p3) p4 d p5 = layout p0 mn p1 (u ++ [sp]) [] [] p3 p4 d p5.
+Proof. unfold layout. cbn [app]. rewrite <- app_assoc. reflexivity. Qed.
+
+Theorem digit_unit : forall (p0 mn p1 u p2 v p3 p4 d p5 : list N) (is_curves is_param : bool),
+  padding6 p0 p1 p2 p3 p4 p5 = true ->
+  conf_mnem mn = true -> conf_digit_unit u p2 v = true ->
+  conf_text v = true -> conf_text d = true -> value_set_off p2 v = true ->
+  sect_ok_plain is_curves is_param (layout p0 mn p1 u p2 v p3 p4 d p5) v d = true ->
+  read_header_line (layout p0 mn p1 u p2 v p3 p4 d p5) is_curves is_param = Some (mkhl mn u v d).
+Proof.
+  intros p0 mn p1 u p2 v p3 p4 d p5 ic ip Hp Hm Hu Hv Hd Hso Hs.
+  unfold sect_ok_plain in Hs. apply andb_true_iff in Hs as [Hs Hcc]. apply andb_true_iff in Hs as [Hcur Hdc].
+  apply negb_true_iff in Hdc.
+  assert (Hdd : ic = true -> curves_plain (layout p0 mn p1 u p2 v p3 p4 d p5) = true).
+  { intros ->. exact Hcur. }
+  assert (Hsec : forall U p3' p4' : list N, in_str 58 U = false ->
+            if ip return Prop
+            then clock_colons v = true /\
+                 ((p3' <> [] /\ p4' <> []) \/ (in_str 58 U = false /\ in_str 58 d = false))
+            else in_str 58 d = false).
+  { intros U p3' p4' HU. destruct ip; [|exact Hdc]. split; [exact Hcc|]. right. split; assumption. }
+  clear Hcur Hcc.
+  unfold padding6, conf_mnem, conf_digit_unit, conf_text, value_set_off in *. split_bools.
+  pose proof (all_digit_no_colon u ltac:(assumption)) as Huc.
+  destruct p2 as [|sp p2'].
+  - destruct v as [|v0 v]; [|discriminate]. destruct p3 as [|sp p3'].
+    + rewrite (rhl_layout p0 mn p1 u [] [] [] p4 d p5); try assumption.
+      * rewrite fix_unit_id; [reflexivity|apply no_space_stripped; apply all_digit_no_space; assumption|
+                              apply all_digit_no_dot_end; assumption].
+      * cbn [app]. apply unit_splits_tight. apply all_digit_no_space. assumption.
+      * apply Hsec. exact Huc.
+    + rewrite layout_shift_p3 in Hdd |- *.
+      match goal with H : blanks (sp :: p3') = true |- _ =>
+        cbn [blanks forallb] in H; apply andb_true_iff in H; destruct H as [Hsp Hp3'] end.
+      rewrite (rhl_layout p0 mn p1 (u ++ [sp]) [] [] p3' p4 d p5); try assumption.
+      * rewrite fix_unit_digit_sp by assumption. reflexivity.
+      * apply (unit_word_num u sp []); try assumption; try reflexivity; [apply blank_space; exact Hsp|].
+        apply head_space_value; [reflexivity|exact Hp3'|reflexivity].
+      * apply Hsec. rewrite in_str_app, Huc, in_str_cons, (blank_not sp 58 eq_refl Hsp). reflexivity.
+  - rewrite layout_shift_p2 in Hdd |- *.
+    match goal with H : blanks (sp :: p2') = true |- _ =>
+      cbn [blanks forallb] in H; apply andb_true_iff in H; destruct H as [Hsp Hp2'] end.
+    assert (Hsep : is_nil v || negb (is_nil p2') = true).
+    { destruct v as [|v0 v]; [reflexivity|]. destruct p2'; [discriminate|reflexivity]. }
+    rewrite (rhl_layout p0 mn p1 (u ++ [sp]) p2' v p3 p4 d p5); try assumption.
+    + rewrite fix_unit_digit_sp by assumption. reflexivity.
+    + apply (unit_word_num u sp []); try assumption; try reflexivity; [apply blank_space; exact Hsp|].
+      apply head_space_value; assumption.
+    + apply Hsec. rewrite in_str_app, Huc, in_str_cons, (blank_not sp 58 eq_refl Hsp). reflexivity.
 Qed.
 
 (* ---------- the clock-time sweep ----------------------------------------------------- *)
